@@ -103,6 +103,10 @@ def correspond(ctx):
                 dis.append({'case': {'target': target, 'k': k, 'krho': krho}, 'what': 'tabulating target %s raised %s: %s' % (target, type(e).__name__, str(e)[:100])}); continue
             want = (k + 1, krho + 1 if target not in ('LAMMPS', 'DL_POLY', 'GULP', 'excel') else None)
             if got != want: dis.append({'case': {'target': target, 'k': k, 'krho': krho}, 'what': 'target %s wrote (nr, nrho) = %r, the [Tabulation] section fixes %r' % (target, got, want)})
+    for fam in ('pair', 'eam'):
+        try: f = check_defaults(fam)
+        except Exception as e: f = ['tabulating with default grids raised %s: %s' % (type(e).__name__, str(e)[:100])]
+        if f: dis.append({'case': {'defaults_after': fam}, 'what': f[0]})
     dist = {'targets_checked': ntargets, 'combinations': {k: sum(1 for c in cases if '+'.join(sorted(c['vals'])) == k) for k in ('cutoff+dr', 'dr+nr', 'cutoff+nr', 'cutoff+dr+nr', 'dr', '', 'nr', 'cutoff')},
             'grids': {g: sum(1 for c in cases if c['grid'] == g) for g in ('r', 'rho')}, 'written_tables': len(tcases),
             'max_rows': max([int(float(c['vals']['cutoff']) / float(c['vals']['dr'])) for c in cases if set(c['vals']) == {'cutoff', 'dr'} and float(c['vals']['dr']) > 0] or [0])}
@@ -111,9 +115,32 @@ def correspond(ctx):
                     'non-multiples: (nr, cutoff) of the parser compared bit for bit with the binary64 model; row counts of written GULP/setfl tables for commensurate pairs; non-trivial = at least two values given',
             'samples': cases[:3], 'distribution': dist, 'disagreements': dis[:20], 'oracle_cases': cases[:200]}
 
+def defaults_after(family):
+    """rows / steps written for a model that omits nr, cutoff (nrho, cutoff_rho) after a model of the same family that set them"""
+    eam = family == 'eam'
+    body = '[Pair]\nAl-Al : as.constant 1.0\n' + ('[EAM-Embed]\nAl : as.constant 2.0\n[EAM-Density]\nAl : as.constant 3.0\n' if eam else '')
+    first = '[Tabulation]\ntarget : %s\nnr : 8\ncutoff : 2.0\n' % ('setfl' if eam else 'GULP') + ('nrho : 5\ncutoff_rho : 3.0\n' if eam else '') + body
+    second = '[Tabulation]\ntarget : %s\n' % ('setfl' if eam else 'GULP') + body
+    sc.tabulate(first)
+    out = sc.tabulate(second)
+    if eam:
+        h = out.split('\n')[4].split()
+        return {'nrho': int(h[0]), 'drho': float(h[1]), 'nr': int(h[2]), 'dr': float(h[3])}
+    rows = out.split('\n')[2:-1]
+    return {'nr': len(rows), 'dr': float(rows[1].split()[1])}
+
+def check_defaults(family):
+    got = defaults_after(family)
+    want = {'nr': 1001, 'dr': 0.01} if family == 'pair' else {'nr': 1001, 'dr': 0.01, 'nrho': 1001, 'drho': 0.1}
+    bad = [k for k in want if (got[k] != want[k] if isinstance(want[k], int) else abs(got[k] - want[k]) > 1e-12)]
+    return [] if not bad else ['a %s model that omits its grid options, tabulated after another model in the same process, was written with %r instead of the documented defaults %r' % (family, got, want)]
+
 def oracle(case):
     """the statement, on the parser and on written tables"""
     import decimal
+    if 'defaults_after' in case:
+        try: return check_defaults(case['defaults_after'])
+        except Exception as e: return ['tabulating with default grids raised %s: %s' % (type(e).__name__, str(e)[:100])]
     if 'target' in case:
         try: got = target_grid(case['target'], case['k'], case['krho'])
         except Exception as e: return ['tabulating target %s raised %s: %s' % (case['target'], type(e).__name__, str(e)[:100])]
@@ -194,6 +221,8 @@ def target_grid(target, k, krho, step='0.25', steprho='0.5'):
     return (nr, nrho)
 
 def search_cases(rng, n):
+    yield {'defaults_after': 'pair'}
+    yield {'defaults_after': 'eam'}
     for _ in range(n): yield gen_case(rng)
 def finding_for(case, fails): return None
 def replay_finding(f): return False
